@@ -6,6 +6,6 @@ CONSTANTS
   HopSafe = TRUE
   CLNormalised = TRUE
   BigBodies = FALSE
-  Families = {"mini", "hop"}
+  Families = {"mini", "hop", "inj"}
 INVARIANTS TypeOK RulesHold ComposedAgrees SignedIsReceived BodyIntact SignedAfterStrip SignedAfterIdentity
 CHECK_DEADLOCK FALSE
